@@ -50,11 +50,12 @@ def obligations(tier):
     q = tier == 'quick'
     o = []
     for dec in (0, 1, 2, 3):
-        for bw in ([1, 3, 8] if q else [1, 2, 3, 7, 8, 9, 16]) + ([] if dec in (1, 2) else ([17] if q else [17, 24, 32])):
+        # bit width 0 (runs without payload bytes: the indices of a one-entry dictionary, the levels of a max-level-0 stream) is legal
+        for bw in ([0, 1, 3, 8] if q else [0, 1, 2, 3, 7, 8, 9, 16]) + ([] if dec in (1, 2) else ([17] if q else [17, 24, 32])):
             o.append(rle(dec, bw, 0))
             o.append(rle(dec, bw, 1))
     for dec in (0, 1, 3):
-        for bw in ([2, 9] if q else [1, 2, 8, 9, 16]):
+        for bw in ([0, 2, 9] if q else [0, 1, 2, 8, 9, 16]):
             o.append(rle(dec, bw, 0, pad=1))
     for dec in (4, 5, 6, 7):
         for bw in ([2] if q else [2, 3, 8]):
